@@ -14,6 +14,8 @@ import Distill.Model.Words
 import Distill.Model.Render
 import Distill.Model.Title
 import Distill.Model.Pagination
+import Distill.Model.PageGroups
+import Distill.Model.PathPattern
 namespace Distill.Slices
 open Distill Distill.Proto
 
@@ -322,6 +324,35 @@ def pagenumSlice : P String := do
   let f := match pi.formula with | some (c, d) => s!"f{c},{d}" | none => "f-"
   pure s!"{bstr pi.isPageNumber} {hex pi.pattern} [{" ".intercalate (pi.pages.map pinfoStr)}] {f} {hex pi.next} | {hex next} {hex prev}"
 
+/-- `pagegroups n (kind num url)*` (kind 0 = AddGroup, 1 = AddPageInfo, 2 = CleanUp) → the groups -/
+def pagegroupsSlice : P String := do
+  let n ← nat
+  let ops ← many n (do
+    let k ← nat; let num ← int; let u ← str
+    pure (match k with
+      | 0 => Pg.GOp.addGroup
+      | 1 => Pg.GOp.add { num := num, url := u }
+      | _ => Pg.GOp.cleanUp))
+  let m := Pg.runOps ops
+  pure (" ".intercalate (m.groups.map (fun g => s!"<{g.deltaSign}:{",".intercalate (g.list.map pinfoStr)}>")))
+
+def bytesOf (s : String) : List UInt8 := s.toUTF8.toList
+
+/-- `pathpaging strURL pStart segStart prefix suffix origin n url*` → per URL `1`/`0`/`P`
+(P = the Go code would index out of range), then whether the construction from strURL
+reproduces the stored fields -/
+def pathpagingSlice : P String := do
+  let strURL ← bytes; let ps ← int; let ss ← int; let pre ← bytes; let suf ← bytes; let origin ← int
+  let n ← nat
+  let urls ← many n bytes
+  let pp : PP.PathPat := { str := strURL, pStart := ps, segStart := ss, pre := pre, suf := suf, origin := origin }
+  let res := urls.map (fun u => match PP.isPagingURL pp u with
+    | some true => '1' | some false => '0' | none => 'P')
+  let same := match PP.construct strURL origin with
+    | some c => c.pStart == ps && c.segStart == ss && c.pre == pre && c.suf == suf
+    | none => false
+  pure s!"{String.ofList res}. {bstr same}"
+
 /-- `prevnext nb banned* nc (href score)*` → the selected href -/
 def prevnextSlice : P String := do
   let nb ← nat; let banned ← many nb str
@@ -345,6 +376,8 @@ def dispatch (slice : String) : Option (P String) :=
   | "title" => some titleSlice
   | "pagenum" => some pagenumSlice
   | "prevnext" => some prevnextSlice
+  | "pagegroups" => some pagegroupsSlice
+  | "pathpaging" => some pathpagingSlice
   | _ => none
 
 def answer (line : String) : String :=
